@@ -50,6 +50,20 @@ impl Kind {
     }
 }
 
+impl Kind {
+    fn render_into(self, x: &BigDecimal, n: usize, via_ref: bool, w: &mut props::faulty::FaultyWriter) -> std::fmt::Result {
+        use std::fmt::Write as _;
+        match (self, via_ref) {
+            (Kind::Fixed, false) => write!(w, "{:.*}", n, x),
+            (Kind::LowerExp, false) => write!(w, "{:.*e}", n, x),
+            (Kind::UpperExp, false) => write!(w, "{:.*E}", n, x),
+            (Kind::Fixed, true) => write!(w, "{:.*}", n, x.to_ref()),
+            (Kind::LowerExp, true) => write!(w, "{:.*e}", n, x.to_ref()),
+            (Kind::UpperExp, true) => write!(w, "{:.*E}", n, x.to_ref()),
+        }
+    }
+}
+
 fn clip(s: &str) -> String {
     if s.chars().count() > 90 {
         let head: String = s.chars().take(45).collect();
@@ -192,6 +206,43 @@ fn replay(cfg: &Cfg, case: &Value) -> Vec<Violation> {
         return check_flags(&keep, &bd(&x), &x, case["p"].as_u64().unwrap() as usize, &mut Tally::default()).into_iter().filter(|v| v.case["spec"] == *spec && v.case["width"] == case["width"]).collect();
     }
     let xb = bd(&x);
+    if let Some(f) = case.get("faulted") {
+        use props::faulty::{Fault, FaultyWriter};
+        let (k1, n1, via) = (Kind::from_name(case["kind"].as_str().unwrap()), case["N"].as_u64().unwrap() as usize, case["via_ref"].as_bool().unwrap());
+        let full = k1.render(&xb, n1, via);
+        let fault = Fault::from_json(f);
+        let mut last = None;
+        for _ in 0..(if case.get("after_fault").is_some() { 2 } else { 1 }) {
+            let mut w = FaultyWriter::new(fault);
+            let r = guard(|| k1.render_into(&xb, n1, via, &mut w));
+            last = Some(match r {
+                Err(p) => Some(p),
+                Ok(res) => {
+                    if !full.starts_with(&w.written) || (w.failed && res.is_ok()) || (!w.failed && (res.is_err() || w.written != full)) {
+                        Some(format!("{:?} with {:?}", res, clip(&w.written)))
+                    } else {
+                        None
+                    }
+                }
+            });
+        }
+        return last.flatten().map(|obs| Violation::new(&format!("faulted format {}", k1.name()), "faulted_call", case.clone(), "a prefix and Err iff the sink refused", obs)).into_iter().collect();
+    }
+    if let Some(h) = case.get("after_fault") {
+        // a recorded history: an earlier formatting call whose sink failed at the recorded point
+        let a = bd(&jd(&h["x"]));
+        let mut w = props::faulty::FaultyWriter::new(props::faulty::Fault::from_json(&h["fault"]));
+        let _ = guard(|| Kind::from_name(h["kind"].as_str().unwrap()).render_into(&a, h["N"].as_u64().unwrap() as usize, h["via_ref"].as_bool().unwrap(), &mut w));
+        return check(cfg, Kind::from_name(case["kind"].as_str().unwrap()), &xb, &x, case["N"].as_u64().unwrap() as usize, case["via_ref"].as_bool().unwrap())
+            .map(|mut v| {
+                if let Some(o) = v.case.as_object_mut() {
+                    o.insert("after_fault".into(), h.clone());
+                }
+                v
+            })
+            .into_iter()
+            .collect();
+    }
     if let Some(a) = case.get("after") {
         // a recorded history: the earlier formatting call first
         let n1 = a["N"].as_u64().unwrap() as usize;
@@ -505,6 +556,83 @@ fn main() {
         ];
         for (x, ns) in cases.iter() {
             sweep(&run, &cfg, x, ns, &mut t);
+        }
+        t
+    });
+    // S3i: environment faults: every precision formatting call into a sink that refuses output at EVERY point (byte
+    // budgets whole-fragment and torn, every write_str call index); what the sink accepted must be a prefix of the
+    // fault-free text and the error must surface; then a fault-free formatting of a second decimal on the same
+    // (fresh) thread is judged as usual
+    let fa: Vec<(Dec, usize)> = vec![(Dec::new(12345, 2), 1), (Dec::new(-995, 1), 0), (Dec::new(0, 3), 5), (Dec { n: pow10(21) - 1, s: 4 }, 2), (Dec::new(7, -3), 2), (Dec::new(-15, 7), 3)];
+    let fb: Vec<(Dec, usize)> = vec![(Dec::new(-4250, 2), 1), (Dec::new(9996, 3), 2), (Dec::new(5, 1), 0)];
+    run.bound("S3i_fault_histories", json!({"first": fa.len(), "second": fb.len(), "fault_points": "every byte budget (whole-fragment, torn) and call index"}));
+    run.par("S3i formatting into failing sinks, then fault-free formatting", fa.len() * 6, |i| {
+        use props::faulty::{Fault, FaultyWriter};
+        let mut t = Tally::default();
+        let (a, n1) = &fa[i / 6];
+        let (k1, via) = ([Kind::Fixed, Kind::LowerExp, Kind::UpperExp][(i % 6) / 2], i % 2 == 1);
+        let pa = bd(a);
+        let full = match guard(|| k1.render(&pa, *n1, via)) {
+            Ok(s) => s,
+            Err(_) => return t,
+        };
+        for fault in Fault::all(full.len()) {
+            let tt = std::thread::scope(|sc| {
+                sc.spawn(|| {
+                    let mut t = Tally::default();
+                    let h = json!({"x": a.show(), "kind": k1.name(), "N": n1, "via_ref": via, "fault": fault.json()});
+                    t.states += 1;
+                    for again in [false, true] {
+                        t.transitions += 1;
+                        let mut w = FaultyWriter::new(fault);
+                        let r = guard(|| k1.render_into(&pa, *n1, via, &mut w));
+                        let bad = match &r {
+                            Err(p) => Some(("panic", p.clone())),
+                            Ok(res) => {
+                                if !full.starts_with(&w.written) {
+                                    Some(("sink_received_other_text", format!("{:?}", clip(&w.written))))
+                                } else if w.failed && res.is_ok() {
+                                    Some(("write_error_swallowed", format!("Ok(()) with {:?} delivered", clip(&w.written))))
+                                } else if !w.failed && (res.is_err() || w.written != full) {
+                                    Some(("fault_free_run_differs", format!("{:?} with {:?}", res, clip(&w.written))))
+                                } else {
+                                    None
+                                }
+                            }
+                        };
+                        if let Some((class, obs)) = bad {
+                            let mut case = json!({"kind": k1.name(), "x": a.show(), "N": n1, "via_ref": via, "faulted": fault.json()});
+                            if again {
+                                case.as_object_mut().unwrap().insert("after_fault".into(), h.clone());
+                            }
+                            run.report(Violation::new(&format!("faulted format {}", k1.name()), class, case, format!("a prefix of {:?} and Err iff the sink refused", clip(&full)), obs).attr("fault", true));
+                        }
+                    }
+                    for (b, n2) in fb.iter() {
+                        let pb = bd(b);
+                        for k2 in [Kind::Fixed, Kind::LowerExp, Kind::UpperExp] {
+                            for via2 in [false, true] {
+                                let mut w = FaultyWriter::new(fault);
+                                let _ = guard(|| k1.render_into(&pa, *n1, via, &mut w));
+                                t.transitions += 2;
+                                if w.failed {
+                                    t.nontrivial += 1;
+                                }
+                                if let Some(mut v) = check(&cfg, k2, &pb, b, *n2, via2) {
+                                    if let Some(o) = v.case.as_object_mut() {
+                                        o.insert("after_fault".into(), h.clone());
+                                    }
+                                    run.report(v.attr("history", true).attr("fault", true));
+                                }
+                            }
+                        }
+                    }
+                    t
+                })
+                .join()
+                .expect("S3i history thread")
+            });
+            t.merge(&tt);
         }
         t
     });
